@@ -165,10 +165,10 @@ class PipelineTotality(NativeCase):
     BUDGET_S = 20
 
     def run_native(self, tier):
-        optsets = [(), ('-size',), ('-storage',), ('-no-simplification',), ('-push0',)]
+        optsets = [(), ('-size',), ('-storage',), ('-push0',)]
         if tier != 'quick':
             optsets += [('-length',), ('-partition',), ('-size', '-storage'), ('-length', '-no-simplification')]
-        blocks = list(EDGE_BLOCKS) + list(corpus.BASE_BLOCKS)
+        blocks = list(EDGE_BLOCKS) + list(corpus.BASE_BLOCKS) + corpus.rule_shape_blocks(1 if tier == 'quick' else 2)
         for b in blocks:
             text = pipeline.plain_text(corpus.tokens(b))
             for opts in optsets:
